@@ -3,7 +3,7 @@ RULE = ('context kind {heap, static} x every prior history of depth <= d over 17
         'call + reset, stable-input call + reset, stable-output frame, ZSTD_generateSequences, mid-frame level change, pledged frame, prefix frame, loadDictionary frame, 2-worker frame, '
         'registered sequence producer, shared thread pool, parameter reset) x subjects (6 inputs x <= D deviations over 14 parameter vectors incl. all strategies / row finder / LDM / '
         'targetCBlockSize / level 19 / prefix, 4 call sequences incl. 7-byte outputs and mid-frame flushes, 3 source / destination alignments), source placed right after a PROT_NONE page; '
-        'oracle: bytes identical to the fresh-context run of the same subject; worker counts and schedules are judged in C11 (one output per subject over every explored schedule); '
+        'second unit: 40 (thorough 200) text-like inputs x 2 sizes x the 3 optimal-parser strategies after {nothing, a 600 KB level-3 frame, a level-19 frame} on a heap context and on caller-provided memory pre-filled with 0x3F / 0xFF; oracle: bytes identical to the fresh-context run of the same subject; worker counts and schedules are judged in C11 (one output per subject over every explored schedule); '
         'distinct = distinct subject outputs; non-trivial = non-empty history')
 SRC = ['harness/c07_purity.c', 'ref/edu_decoder.c']
 
@@ -11,8 +11,9 @@ SRC = ['harness/c07_purity.c', 'ref/edu_decoder.c']
 def run(vc, tier):
     c = vc.Check('C07', tier, 'model_checking', RULE)
     q = tier == 'quick'
-    r = c.run_vx_unit('c07-histories', SRC, 'asan', ['--depth', 2 if q else 3, '--D', 1 if q else 2, '--nshapes', 3 if q else 6, '--exec-timeout', 60000], share=0.9)
-    c.states = r.done.get('outcomes', 0); c.transitions = r.stats.get('histories_run', 0); c.traces_validated = r.stats.get('histories_run', 0)
+    r = c.run_vx_unit('c07-histories', SRC, 'asan', ['--depth', 2 if q else 3, '--D', 1 if q else 2, '--nshapes', 3 if q else 6, '--exec-timeout', 60000], share=0.6)
+    r2 = c.run_vx_unit('c07-opt', SRC, 'asan', ['--mode', 1, '--ninputs', 40 if q else 200, '--D', 0, '--exec-timeout', 60000], share=0.9)
+    c.states = r.done.get('outcomes', 0) + r2.done.get('outcomes', 0); c.transitions = r.stats.get('histories_run', 0) + r2.stats.get('histories_run', 0); c.traces_validated = c.transitions
     c.extra['note'] = 'a state is an operation history replayed on a fresh real context (contexts cannot be copied); transitions = histories executed; states = distinct subject outputs observed'
     c.assumptions = ['histories deeper than the bound', 'cross-process determinism (different binaries) is out of scope']
     return c.finish()
